@@ -64,7 +64,7 @@ func (ex *Exec) storeTarget(st *State, l *Loop, depth int, addr ssa.Value, m *lo
 			continue
 		case *ssa.IndexAddr:
 			if sl, isSlice := a.X.Type().Underlying().(*types.Slice); isSlice {
-				rm := m.get("[]" + shortTypeName(sl.Elem()))
+				rm := m.get(ex.sliceRegionName(sl.Elem()))
 				if depth == 0 && definedOutside(a.X, l) {
 					if t, ok := st.vals[a.X].(*Term); ok {
 						rm.refs = append(rm.refs, ex.p.Acc(t, 0))
@@ -97,12 +97,14 @@ func (ex *Exec) storeTarget(st *State, l *Loop, depth int, addr ssa.Value, m *lo
 	}
 	var regions []string
 	if arr, isArr := el.Underlying().(*types.Array); isArr && !isHashType(el) && !isAddrType(el) {
-		regions = []string{"[]" + shortTypeName(arr.Elem())}
+		regions = []string{ex.sliceRegionName(arr.Elem())}
 	} else if firstField != nil {
 		sT := firstField.X.Type().Underlying().(*types.Pointer).Elem()
 		str, _ := derefStruct(sT)
+		ex.hintStructRegions(sT)
 		regions = []string{fieldRegion(sT, str, firstField.Field)}
 	} else {
+		ex.hintStructRegions(el)
 		regions = structFieldRegions(el)
 	}
 	for _, r := range regions {
@@ -157,23 +159,24 @@ func (ex *Exec) scanMods(fr *frame, l *Loop, st *State) *loopMods {
 						continue
 					}
 					if arr, ok := el.Underlying().(*types.Array); ok && !isHashType(el) && !isAddrType(el) {
-						m.get("[]" + shortTypeName(arr.Elem())).fresh = true
+						m.get(ex.sliceRegionName(arr.Elem())).fresh = true
 					} else {
+						ex.hintStructRegions(el)
 						for _, r := range structFieldRegions(el) {
 							m.get(r).fresh = true
 						}
 					}
 				case *ssa.MakeSlice:
-					m.get("[]" + shortTypeName(in.Type().Underlying().(*types.Slice).Elem())).fresh = true
+					m.get(ex.sliceRegionName(in.Type().Underlying().(*types.Slice).Elem())).fresh = true
 				case *ssa.Convert:
 					// string -> []byte allocates
 					if _, ok := in.Type().Underlying().(*types.Slice); ok {
-						m.get("[]" + shortTypeName(types.Typ[types.Byte])).fresh = true
+						m.get(ex.sliceRegionName(types.Typ[types.Byte])).fresh = true
 					}
 				case *ssa.Slice:
 					if pt, ok := in.X.Type().Underlying().(*types.Pointer); ok {
 						if arr, ok := pt.Elem().Underlying().(*types.Array); ok {
-							m.get("[]" + shortTypeName(arr.Elem())).fresh = true
+							m.get(ex.sliceRegionName(arr.Elem())).fresh = true
 						}
 					}
 				case *ssa.MapUpdate:
@@ -199,10 +202,10 @@ func (ex *Exec) scanMods(fr *frame, l *Loop, st *State) *loopMods {
 						switch bi.Name() {
 						case "copy":
 							el := cc.Args[0].Type().Underlying().(*types.Slice).Elem()
-							m.get("[]" + shortTypeName(el)).whole = true
+							m.get(ex.sliceRegionName(el)).whole = true
 						case "append":
 							el := cc.Args[0].Type().Underlying().(*types.Slice).Elem()
-							m.get("[]" + shortTypeName(el)).fresh = true
+							m.get(ex.sliceRegionName(el)).fresh = true
 						case "delete":
 							m.all = true
 						}
@@ -212,7 +215,18 @@ func (ex *Exec) scanMods(fr *frame, l *Loop, st *State) *loopMods {
 					if callee == nil {
 						if cc.IsInvoke() {
 							if c := ex.ifaceContract(cc); c != nil {
-								if !ex.addModRegions(c, m) {
+								pn := c.Params
+								if len(pn) == 0 {
+									pn = []string{"self"}
+									for i := 0; i < cc.Signature().Params().Len(); i++ {
+										pn = append(pn, cc.Signature().Params().At(i).Name())
+									}
+								}
+								pt := []types.Type{cc.Value.Type()}
+								for i := 0; i < cc.Signature().Params().Len(); i++ {
+									pt = append(pt, cc.Signature().Params().At(i).Type())
+								}
+								if !ex.addModRegionsSig(c, m, pn, pt) {
 									m.all = true
 								}
 								continue
@@ -234,7 +248,8 @@ func (ex *Exec) scanMods(fr *frame, l *Loop, st *State) *loopMods {
 					switch {
 					case c != nil && (c.Pure || c.Opaque):
 					case c != nil && !c.Inline:
-						if !ex.addModRegions(c, m) {
+						pn, pt := sigNames(callee, c)
+						if !ex.addModRegionsSig(c, m, pn, pt) {
 							m.all = true
 						}
 					case ex.isOpaqueFn(callee):
@@ -340,14 +355,22 @@ func (ex *Exec) havocLoop(fr *frame, l *Loop, spec *LoopSpec, st *State) {
 }
 
 func (ex *Exec) addModRegions(c *FuncContract, m *loopMods) bool {
+	return ex.addModRegionsSig(c, m, nil, nil)
+}
+
+func (ex *Exec) addModRegionsSig(c *FuncContract, m *loopMods, pnames []string, ptypes []types.Type) bool {
 	if c.Pure || c.Opaque {
 		return true
 	}
 	if !c.HasMod && c.Trusted && len(c.Ensures) == 0 {
 		return false
 	}
-	for _, cl := range c.Modifies {
-		names := ex.staticRegions(c, cl)
+	all := append([]*Clause(nil), c.Modifies...)
+	for _, b := range c.Behaviors {
+		all = append(all, b.Modifies...)
+	}
+	for _, cl := range all {
+		names := ex.staticRegionsSig(c, cl, pnames, ptypes)
 		if names == nil {
 			return false
 		}
@@ -356,4 +379,14 @@ func (ex *Exec) addModRegions(c *FuncContract, m *loopMods) bool {
 		}
 	}
 	return true
+}
+
+// sliceRegionName is the backing-array region of element type el; its sort is recorded so that a loop frame can
+// forget the region even if nothing has read it yet.
+func (ex *Exec) sliceRegionName(el types.Type) string {
+	name := "[]" + shortTypeName(el)
+	if _, known := ex.regionSorts[name]; !known {
+		ex.regionSorts[name] = ex.p.ArraySort(IntSort, ex.p.ArraySort(IntSort, ex.tm.SortOf(el)))
+	}
+	return name
 }
